@@ -92,7 +92,7 @@ def run(tier, seed, flavour="native"):
         if f:
             f = str(f)
             if f.startswith(("panic", "died")):
-                sites.setdefault(site(f), []).append((idxs, f, r.get("stderr", "")))
+                sites.setdefault(site(f), []).append((idxs, f, r.get("stderr", ""), j.get("limits")))
             else:
                 chk.inconc("session:" + f[:30])
             continue
@@ -103,7 +103,7 @@ def run(tier, seed, flavour="native"):
             origin = inputs[i][0]
             for c in (st["c"], sj["c"]):
                 if c.startswith("enginepanic"):
-                    sites.setdefault("EnginePanic:" + c[12:60], []).append(([i], c, ""))
+                    sites.setdefault("EnginePanic:" + c[12:60], []).append(([i], c, "", j.get("limits")))
             oc = st["c"].split(":")[0]
             outcomes[oc] = outcomes.get(oc, 0) + 1
             bo = by_origin.setdefault(origin, {})
@@ -113,13 +113,13 @@ def run(tier, seed, flavour="native"):
     known_sites = {k.get("site"): k for k in chk.open_known if k.get("site")}
     reported = 0
     for s, lst in sites.items():
-        idxs, f, stderr = lst[0]
+        idxs, f, stderr, limits = lst[0]
         culprit = None
         if len(idxs) == 1:
             culprit = idxs[0]
         else:
             # re-run the session's inputs one by one, then cumulatively if none fails alone
-            single = runner.run_bvh(binary, "session", [session([inputs[i][1]]) for i in idxs], "c02s", timeout=60)
+            single = runner.run_bvh(binary, "session", [session([inputs[i][1]], limits) for i in idxs], "c02s", timeout=60)
             for i, r in zip(idxs, single):
                 ff = str(r.get("fatal") or "")
                 if ff.startswith(("panic", "died")) or any(x["c"].startswith("enginepanic") for x in r.get("steps", [])):
@@ -139,7 +139,7 @@ def run(tier, seed, flavour="native"):
         text = inputs[culprit][1].decode("utf8", "replace")
 
         def still(srcs, s=s):
-            rr = runner.run_bvh(binary, "session", [session([x.encode("utf8", "replace")]) for x in srcs], "c02r", timeout=20)
+            rr = runner.run_bvh(binary, "session", [session([x.encode("utf8", "replace")], limits) for x in srcs], "c02r", timeout=20)
             out = []
             for r in rr:
                 ff = str(r.get("fatal") or "")
@@ -149,7 +149,7 @@ def run(tier, seed, flavour="native"):
         if text.encode("utf8", "replace") == inputs[culprit][1]:
             red = reducer.reduce(text, still, budget_s=90)
         chk.violation("evaluating a %s input fails internally at %s: %s -- reduced input: %s" % (inputs[culprit][0], s, f[:200], red[:300]),
-                      {"kind": "input", "src_hex": inputs[culprit][1].hex(), "reduced": red, "site": s, "stderr": stderr[-1500:]})
+                      {"kind": "input", "src_hex": inputs[culprit][1].hex(), "reduced": red, "site": s, "limits": limits, "stderr": stderr[-1500:]})
     chk.assumptions = ["inputs whose bracket nesting exceeds 64 are outside the quantifier and skipped (%d skipped)" % skipped,
                        "memory exhaustion and watchdog hits are inconclusive",
                        "flavour: %s (debug assertions and overflow checks on)" % flavour]
@@ -171,7 +171,7 @@ def replay(path, seed):
     if rep.get("kind") == "session":
         j = session([bytes.fromhex(h) for h in rep["inputs_hex"]])
     else:
-        j = session([(rep.get("reduced") or "").encode("utf8", "replace") if rep.get("reduced") else bytes.fromhex(rep["src_hex"])])
+        j = session([(rep.get("reduced") or "").encode("utf8", "replace") if rep.get("reduced") else bytes.fromhex(rep["src_hex"])], rep.get("limits"))
     r = runner.run_bvh(binary, "session", [j], "c02r", shards=1, timeout=60)[0]
     print(r.get("fatal"), [s["c"][:60] for s in r.get("steps", [])][:6])
     f = str(r.get("fatal") or "")
